@@ -78,6 +78,11 @@ type z =
 | Zpos of positive
 | Zneg of positive
 
+(** val eqb : bool -> bool -> bool **)
+
+let eqb b1 b2 =
+  if b1 then b2 else if b2 then false else true
+
 module Nat =
  struct
   (** val pred : nat -> nat **)
@@ -183,6 +188,20 @@ module Pos =
   | XI n' -> f (iter f (iter f x n') n')
   | XO n' -> iter f (iter f x n') n'
   | XH -> f x
+
+  (** val div2 : positive -> positive **)
+
+  let div2 = function
+  | XI p0 -> p0
+  | XO p0 -> p0
+  | XH -> XH
+
+  (** val div2_up : positive -> positive **)
+
+  let div2_up = function
+  | XI p0 -> succ p0
+  | XO p0 -> p0
+  | XH -> XH
 
   (** val size : positive -> positive **)
 
@@ -294,6 +313,20 @@ module Pos =
              | XO _ -> Npos XH
              | _ -> N0)
 
+  (** val testbit : positive -> n -> bool **)
+
+  let rec testbit p n0 =
+    match p with
+    | XI p0 -> (match n0 with
+                | N0 -> true
+                | Npos n1 -> testbit p0 (pred_N n1))
+    | XO p0 -> (match n0 with
+                | N0 -> false
+                | Npos n1 -> testbit p0 (pred_N n1))
+    | XH -> (match n0 with
+             | N0 -> true
+             | Npos _ -> false)
+
   (** val iter_op : ('a1 -> 'a1 -> 'a1) -> positive -> 'a1 -> 'a1 **)
 
   let rec iter_op op p a =
@@ -366,6 +399,13 @@ module N =
     | Npos p -> (match m with
                  | N0 -> n0
                  | Npos q -> Pos.ldiff p q)
+
+  (** val testbit : n -> n -> bool **)
+
+  let testbit a n0 =
+    match a with
+    | N0 -> false
+    | Npos p -> Pos.testbit p n0
  end
 
 module Z =
@@ -618,6 +658,26 @@ module Z =
                | XO _ -> true
                | _ -> false)
 
+  (** val odd : z -> bool **)
+
+  let odd = function
+  | Z0 -> false
+  | Zpos p -> (match p with
+               | XO _ -> false
+               | _ -> true)
+  | Zneg p -> (match p with
+               | XO _ -> false
+               | _ -> true)
+
+  (** val div2 : z -> z **)
+
+  let div2 = function
+  | Z0 -> Z0
+  | Zpos p -> (match p with
+               | XH -> Z0
+               | _ -> Zpos (Pos.div2 p))
+  | Zneg p -> Zneg (Pos.div2_up p)
+
   (** val log2 : z -> z **)
 
   let log2 = function
@@ -627,6 +687,29 @@ module Z =
      | XO p -> Zpos (Pos.size p)
      | XH -> Z0)
   | _ -> Z0
+
+  (** val testbit : z -> z -> bool **)
+
+  let testbit a = function
+  | Z0 -> odd a
+  | Zpos p ->
+    (match a with
+     | Z0 -> false
+     | Zpos a0 -> Pos.testbit a0 (Npos p)
+     | Zneg a0 -> negb (N.testbit (Pos.pred_N a0) (Npos p)))
+  | Zneg _ -> false
+
+  (** val shiftl : z -> z -> z **)
+
+  let shiftl a = function
+  | Z0 -> a
+  | Zpos p -> Pos.iter (mul (Zpos (XO XH))) a p
+  | Zneg p -> Pos.iter div2 a p
+
+  (** val shiftr : z -> z -> z **)
+
+  let shiftr a n0 =
+    shiftl a (opp n0)
 
   (** val coq_lor : z -> z -> z **)
 
@@ -662,17 +745,6 @@ module Z =
        | Zneg b0 ->
          Zneg (N.succ_pos (N.coq_lor (Pos.pred_N a0) (Pos.pred_N b0))))
  end
-
-(** val nth : nat -> 'a1 list -> 'a1 -> 'a1 **)
-
-let rec nth n0 l default =
-  match n0 with
-  | O -> (match l with
-          | [] -> default
-          | x :: _ -> x)
-  | S m -> (match l with
-            | [] -> default
-            | _ :: t -> nth m t default)
 
 (** val rev : 'a1 list -> 'a1 list **)
 
@@ -1001,15 +1073,6 @@ type 'a outcome =
 | Panic of char list
 | OutOfFuel
 
-(** val min_int64 : z **)
-
-let min_int64 =
-  Zneg (XO (XO (XO (XO (XO (XO (XO (XO (XO (XO (XO (XO (XO (XO (XO (XO (XO
-    (XO (XO (XO (XO (XO (XO (XO (XO (XO (XO (XO (XO (XO (XO (XO (XO (XO (XO
-    (XO (XO (XO (XO (XO (XO (XO (XO (XO (XO (XO (XO (XO (XO (XO (XO (XO (XO
-    (XO (XO (XO (XO (XO (XO (XO (XO (XO (XO
-    XH)))))))))))))))))))))))))))))))))))))))))))))))))))))))))))))))
-
 (** val max_int64 : z **)
 
 let max_int64 =
@@ -1083,6 +1146,11 @@ let is_surrogate r =
       XH)))))))))))))))) r)
     (Z.leb r (Zpos (XI (XI (XI (XI (XI (XI (XI (XI (XI (XI (XI (XI (XI (XO
       (XI XH)))))))))))))))))
+
+(** val valid_rune : z -> bool **)
+
+let valid_rune r =
+  (&&) ((&&) (Z.leb Z0 r) (Z.leb r max_rune)) (negb (is_surrogate r))
 
 (** val bytes_of : char list -> z list **)
 
@@ -1323,28 +1391,24 @@ type goLib = { xid_start : (z -> bool); xid_continue : (z -> bool);
                parse_float : (char list -> (f64 * bool) option);
                format_int : (z -> char list);
                format_float_json : (f64 -> char list);
-               f64_neg : (f64 -> f64); regex_ok : (char list -> z -> bool);
-               atoi_clamp : (char list -> z) }
+               f64_neg : (f64 -> f64); regex_ok : (char list -> z -> bool) }
 
-(** val is_digit : z -> bool **)
+(** val f64_finite : f64 -> bool **)
 
-let is_digit c =
-  (&&) (Z.leb (Zpos (XO (XO (XO (XO (XI XH)))))) c)
-    (Z.leb c (Zpos (XI (XO (XO (XI (XI XH)))))))
+let f64_finite = function
+| S754_zero _ -> true
+| S754_finite (_, _, _) -> true
+| _ -> false
 
-(** val dec_value_acc : z -> z list -> z **)
+(** val f64_integral : f64 -> bool **)
 
-let rec dec_value_acc acc = function
-| [] -> acc
-| c :: r ->
-  dec_value_acc
-    (Z.add (Z.mul acc (Zpos (XO (XI (XO XH)))))
-      (Z.sub c (Zpos (XO (XO (XO (XO (XI XH)))))))) r
-
-(** val dec_value : z list -> z **)
-
-let dec_value l =
-  dec_value_acc Z0 l
+let f64_integral = function
+| S754_zero _ -> true
+| S754_finite (_, m, e) ->
+  if Z.leb Z0 e
+  then true
+  else Z.eqb (Z.modulo (Zpos m) (Z.pow (Zpos (XO XH)) (Z.opp e))) Z0
+| _ -> false
 
 type f0 = spec_float
 
@@ -1463,6 +1527,33 @@ let f64_to_bits = function
               XH))))))))))))))))))))))))))))))))))))))))))))))))))))))
      else Zpos m)
 
+(** val fde_loop : nat -> z -> z -> z -> z -> z -> z * z **)
+
+let rec fde_loop fuel i a b q r =
+  match fuel with
+  | O -> (q, r)
+  | S f ->
+    let r1 =
+      Z.add (Z.mul (Zpos (XO XH)) r) (if Z.testbit a i then Zpos XH else Z0)
+    in
+    if Z.leb b r1
+    then fde_loop f (Z.sub i (Zpos XH)) a b
+           (Z.add (Z.mul (Zpos (XO XH)) q) (Zpos XH)) (Z.sub r1 b)
+    else fde_loop f (Z.sub i (Zpos XH)) a b (Z.mul (Zpos (XO XH)) q) r1
+
+(** val zfast_div_eucl : z -> z -> z * z **)
+
+let zfast_div_eucl a b =
+  if (||) (Z.leb a Z0) (Z.leb b Z0)
+  then Z.div_eucl a b
+  else let s = Z.add (Z.sub (Z.log2 a) (Z.log2 b)) (Zpos XH) in
+       if Z.leb s Z0
+       then (Z0, a)
+       else if Z.ltb (Zpos (XO (XO (XO (XO (XO (XI (XO XH)))))))) s
+            then Z.div_eucl a b
+            else fde_loop (Z.to_nat s) (Z.sub s (Zpos XH)) a b Z0
+                   (Z.shiftr a s)
+
 (** val loc_of_rem : z -> z -> location **)
 
 let loc_of_rem r d =
@@ -1480,7 +1571,7 @@ let f64_of_ratio s n0 d =
            (Z.sub (Z.add (Zpos (XO (XI (XO (XO (XO (XO XH))))))) (Z.log2 d))
              (Z.log2 n0))
        in
-       let (q, r) = Z.div_eucl (Z.mul n0 (Z.pow (Zpos (XO XH)) k)) d in
+       let (q, r) = zfast_div_eucl (Z.mul n0 (Z.pow (Zpos (XO XH)) k)) d in
        binary_round_aux (Zpos (XI (XO (XI (XO (XI XH)))))) (Zpos (XO (XO (XO
          (XO (XO (XO (XO (XO (XO (XO XH))))))))))) s q (Z.opp k)
          (loc_of_rem r d)
@@ -1528,9 +1619,9 @@ let f64_of_dec s m e10 =
 let cz =
   z_of_ascii
 
-(** val is_digit0 : char -> bool **)
+(** val is_digit : char -> bool **)
 
-let is_digit0 c =
+let is_digit c =
   (&&) (Z.leb (Zpos (XO (XO (XO (XO (XI XH)))))) (cz c))
     (Z.leb (cz c) (Zpos (XI (XO (XO (XI (XI XH)))))))
 
@@ -1569,7 +1660,7 @@ let rec us_loop hex saw = function
          | SawUnder -> false
          | _ -> true)
 | c::r ->
-  if (||) (is_digit0 c) ((&&) hex (is_hex_letter c))
+  if (||) (is_digit c) ((&&) hex (is_hex_letter c))
   then us_loop hex SawDigit r
   else if Z.eqb (cz c) (Zpos (XI (XI (XI (XI (XI (XO XH)))))))
        then (match saw with
@@ -1611,7 +1702,7 @@ let rec pu_loop base base0 s n0 us =
     if (&&) (Z.eqb (cz c) (Zpos (XI (XI (XI (XI (XI (XO XH)))))))) base0
     then pu_loop base base0 r n0 true
     else let d =
-           if is_digit0 c
+           if is_digit c
            then Z.sub (cz c) (Zpos (XO (XO (XO (XO (XI XH))))))
            else if (&&)
                      (Z.leb (Zpos (XI (XO (XO (XO (XO (XI XH)))))))
@@ -1804,7 +1895,7 @@ let rec rf_mant_loop hex s st =
               else rf_mant_loop hex r { rf_sawdot = true; rf_sawdigits =
                      sawdigits; rf_us = us; rf_nd = nd; rf_dp = nd; rf_mant =
                      mant }
-         else if is_digit0 c
+         else if is_digit c
               then if (&&) (Z.eqb (cz c) (Zpos (XO (XO (XO (XO (XI XH)))))))
                         (Z.eqb nd Z0)
                    then rf_mant_loop hex r { rf_sawdot = sawdot;
@@ -1835,7 +1926,7 @@ let rec rf_exp_loop s e us =
   match s with
   | [] -> ((e, us), s)
   | c::r ->
-    if is_digit0 c
+    if is_digit c
     then rf_exp_loop r
            (if Z.ltb e (Zpos (XO (XO (XO (XO (XI (XO (XO (XO (XI (XI (XI (XO
                  (XO XH))))))))))))))
@@ -1861,7 +1952,7 @@ let rf_exponent expchar s = match s with
                (match r1 with
                 | [] -> None
                 | c2::_ ->
-                  if is_digit0 c2
+                  if is_digit c2
                   then let (p, rest) = rf_exp_loop r1 Z0 false in
                        let (e, us) = p in
                        Some (((true, (Z.mul e esign)), us), rest)
@@ -1871,7 +1962,7 @@ let rf_exponent expchar s = match s with
                     (match r1 with
                      | [] -> None
                      | c2::_ ->
-                       if is_digit0 c2
+                       if is_digit c2
                        then let (p, rest) = rf_exp_loop r1 Z0 false in
                             let (e, us) = p in
                             Some (((true, (Z.mul e esign)), us), rest)
@@ -1880,7 +1971,7 @@ let rf_exponent expchar s = match s with
                     (match r with
                      | [] -> None
                      | c2::_ ->
-                       if is_digit0 c2
+                       if is_digit c2
                        then let (p, rest) = rf_exp_loop r Z0 false in
                             let (e, us) = p in
                             Some (((true, (Z.mul e esign)), us), rest)
@@ -2892,69 +2983,55 @@ let rec strip_trailing_zeros_rev l = match l with
 let strip_trailing_zeros l =
   rev (strip_trailing_zeros_rev (rev l))
 
-(** val lt_pow10 : z -> z -> z -> bool **)
+(** val small_fdiv : z -> z -> z **)
 
-let lt_pow10 c den k =
-  if Z.leb Z0 k
-  then Z.ltb c (Z.mul den (Z.pow (Zpos (XO (XI (XO XH)))) k))
-  else Z.ltb (Z.mul c (Z.pow (Zpos (XO (XI (XO XH)))) (Z.opp k))) den
+let small_fdiv x d =
+  if Z.leb Z0 x
+  then fst (zfast_div_eucl x d)
+  else let (q, r) = zfast_div_eucl (Z.opp x) d in
+       if Z.eqb r Z0 then Z.opp q else Z.sub (Z.opp q) (Zpos XH)
 
-(** val dp_loop : nat -> z -> z -> z -> z **)
+(** val sdJ_loop :
+    nat -> z -> z -> z -> bool -> comparison -> z -> z -> z -> z -> bool -> z
+    -> z list * z **)
 
-let rec dp_loop fuel c den k =
+let rec sdJ_loop fuel n0 j t rem_zero cmp0 lf lc hf hc incl dp =
   match fuel with
-  | O -> k
-  | S f -> if lt_pow10 c den k then k else dp_loop f c den (Z.add k (Zpos XH))
-
-(** val dec_point : z -> z -> z **)
-
-let dec_point c den =
-  dp_loop (S (S (S (S (S (S (S (S O)))))))) c den
-    (Z.sub
-      (Z.div
-        (Z.mul (Z.sub (Z.log2 c) (Z.log2 den)) (Zpos (XI (XI (XI (XO (XI (XO
-          (XO (XI (XI (XO (XI (XO (XI (XI XH)))))))))))))))) (Zpos (XO (XO
-        (XO (XO (XO (XI (XO (XI (XO (XI (XI (XO (XO (XO (XO (XI
-        XH)))))))))))))))))) (Zpos (XO XH)))
-
-(** val sd_loop : nat -> z -> z -> z -> z -> z -> bool -> z -> z list * z **)
-
-let rec sd_loop fuel n0 l c h den incl dp =
-  match fuel with
-  | O -> ([], dp)
+  | O -> ((strip_trailing_zeros (dec_digits_list t)), dp)
   | S fuel' ->
-    let k = Z.sub dp n0 in
-    let mul0 =
-      if Z.leb Z0 k then Zpos XH else Z.pow (Zpos (XO (XI (XO XH)))) (Z.opp k)
-    in
-    let d =
-      if Z.leb Z0 k then Z.mul den (Z.pow (Zpos (XO (XI (XO XH)))) k) else den
-    in
-    let nu = Z.mul c mul0 in
-    let l' = Z.mul l mul0 in
-    let h' = Z.mul h mul0 in
-    let t = Z.div nu d in
-    let down = Z.mul t d in
-    let up = Z.mul (Z.add t (Zpos XH)) d in
-    let okdown = if incl then Z.leb l' down else Z.ltb l' down in
-    let okup = if incl then Z.leb up h' else Z.ltb up h' in
+    let j0 = Z.sub j n0 in
+    let p = Z.pow (Zpos (XO (XI (XO XH)))) j0 in
+    let tn = Z.div t p in
+    let down = Z.mul tn p in
+    let up = Z.mul (Z.add tn (Zpos XH)) p in
+    let okdown = if incl then Z.leb lc down else Z.ltb lf down in
+    let okup = if incl then Z.leb up hf else Z.ltb up hc in
     let res =
       if (&&) okdown okup
-      then Some
-             (match Z.compare (Z.mul (Zpos (XO XH)) (Z.sub nu down)) d with
-              | Eq -> if Z.even t then t else Z.add t (Zpos XH)
-              | Lt -> t
-              | Gt -> Z.add t (Zpos XH))
+      then let c =
+             if Z.eqb j0 Z0
+             then cmp0
+             else (match Z.compare (Z.sub t down) (Z.div p (Zpos (XO XH))) with
+                   | Eq -> if rem_zero then Eq else Gt
+                   | x -> x)
+           in
+           Some
+           (match c with
+            | Eq -> if Z.even tn then tn else Z.add tn (Zpos XH)
+            | Lt -> tn
+            | Gt -> Z.add tn (Zpos XH))
       else if okdown
-           then Some t
-           else if okup then Some (Z.add t (Zpos XH)) else None
+           then Some tn
+           else if okup then Some (Z.add tn (Zpos XH)) else None
     in
     (match res with
      | Some r ->
        let ds = dec_digits_list r in
        ((strip_trailing_zeros ds),
        (Z.add dp (Z.sub (Z.of_nat (length ds)) n0)))
-     | None -> sd_loop fuel' (Z.add n0 (Zpos XH)) l c h den incl dp)
+     | None ->
+       sdJ_loop fuel' (Z.add n0 (Zpos XH)) j t rem_zero cmp0 lf lc hf hc incl
+         dp)
 
 (** val shortest_digits : f0 -> z list * z **)
 
@@ -2971,22 +3048,57 @@ let shortest_digits = function
       (negb
         (Z.eqb e (Zneg (XO (XI (XO (XO (XI (XI (XO (XO (XO (XO XH)))))))))))))
   in
-  let c0 = Z.mul (Zpos (XO (XO XH))) mz in
-  let l0 =
-    if border
-    then Z.sub (Z.mul (Zpos (XO (XO XH))) mz) (Zpos XH)
-    else Z.sub (Z.mul (Zpos (XO (XO XH))) mz) (Zpos (XO XH))
-  in
-  let h0 = Z.add (Z.mul (Zpos (XO (XO XH))) mz) (Zpos (XO XH)) in
   let e0 = Z.sub e (Zpos (XO XH)) in
   let sc = if Z.leb Z0 e0 then Z.pow (Zpos (XO XH)) e0 else Zpos XH in
   let den = if Z.leb Z0 e0 then Zpos XH else Z.pow (Zpos (XO XH)) (Z.opp e0)
   in
-  let c = Z.mul c0 sc in
-  let dp = dec_point c den in
-  sd_loop (S (S (S (S (S (S (S (S (S (S (S (S (S (S (S (S (S (S (S (S
-    O)))))))))))))))))))) (Zpos XH) (Z.mul l0 sc) c (Z.mul h0 sc) den
-    (Z.even mz) dp
+  let c = Z.mul (Z.mul (Zpos (XO (XO XH))) mz) sc in
+  let dp' =
+    Z.add
+      (Z.div
+        (Z.mul (Z.sub (Z.log2 c) (Z.log2 den)) (Zpos (XI (XI (XI (XO (XI (XO
+          (XO (XI (XI (XO (XI (XO (XI (XI XH)))))))))))))))) (Zpos (XO (XO
+        (XO (XO (XO (XI (XO (XI (XO (XI (XI (XO (XO (XO (XO (XI
+        XH)))))))))))))))))) (Zpos XH)
+  in
+  let k = Z.sub dp' (Zpos (XO (XI (XO (XO XH))))) in
+  let mul0 =
+    if Z.leb Z0 k then Zpos XH else Z.pow (Zpos (XO (XI (XO XH)))) (Z.opp k)
+  in
+  let d =
+    if Z.leb Z0 k then Z.mul den (Z.pow (Zpos (XO (XI (XO XH)))) k) else den
+  in
+  let delta = Z.mul sc mul0 in
+  let (t, rem) = zfast_div_eucl (Z.mul c mul0) d in
+  let j =
+    if Z.ltb t (Zpos (XO (XO (XO (XO (XO (XO (XO (XO (XO (XO (XO (XO (XO (XO
+         (XO (XO (XO (XI (XO (XI (XO (XO (XO (XI (XI (XO (XI (XI (XI (XO (XI
+         (XO (XO (XO (XO (XI (XI (XI (XI (XO (XI (XO (XI (XO (XO (XO (XI (XO
+         (XI (XI (XO (XO (XO (XI (XI (XO
+         XH)))))))))))))))))))))))))))))))))))))))))))))))))))))))))
+    then Zpos (XI (XO (XO (XO XH))))
+    else if Z.ltb t (Zpos (XO (XO (XO (XO (XO (XO (XO (XO (XO (XO (XO (XO (XO
+              (XO (XO (XO (XO (XO (XI (XO (XO (XI (XI (XO (XI (XI (XI (XO (XO
+              (XI (XO (XI (XI (XI (XO (XO (XI (XI (XO (XI (XO (XI (XI (XO (XI
+              (XI (XO (XI (XO (XO (XO (XO (XO (XI (XI (XI (XI (XO (XI
+              XH))))))))))))))))))))))))))))))))))))))))))))))))))))))))))))
+         then Zpos (XO (XI (XO (XO XH))))
+         else Zpos (XI (XI (XO (XO XH))))
+  in
+  let dp = Z.add dp' (Z.sub j (Zpos (XO (XI (XO (XO XH)))))) in
+  let xl = Z.sub rem (if border then delta else Z.mul (Zpos (XO XH)) delta) in
+  let xh = Z.add rem (Z.mul (Zpos (XO XH)) delta) in
+  let ql = small_fdiv xl d in
+  let qh = small_fdiv xh d in
+  let lf = Z.add t ql in
+  let lc = if Z.eqb (Z.sub xl (Z.mul ql d)) Z0 then lf else Z.add lf (Zpos XH)
+  in
+  let hf = Z.add t qh in
+  let hc = if Z.eqb (Z.sub xh (Z.mul qh d)) Z0 then hf else Z.add hf (Zpos XH)
+  in
+  sdJ_loop (S (S (S (S (S (S (S (S (S (S (S (S (S (S (S (S (S
+    O))))))))))))))))) (Zpos XH) j t (Z.eqb rem Z0)
+    (Z.compare (Z.mul (Zpos (XO XH)) rem) d) lf lc hf hc (Z.even mz) dp
 | _ -> ([], Z0)
 
 (** val zeros : nat -> char list **)
@@ -10698,6 +10810,7 @@ type lex_err =
 | EHex
 | EUnicode
 | EU0000
+| EInvalidChar
 | EOutOfFuel
 
 type 'a lres =
@@ -11527,45 +11640,15 @@ let rec lex_tok l fuel ch rest =
                                                   (Zpos (XO (XI (XI (XI (XO
                                                   XH))))))); ttext =
                                                   ('.'::[]) }), c), r))
-                                    else lbind (scan_operator ch0 rest0)
-                                           (fun pat0 ->
-                                           let (p, r) = pat0 in
-                                           let (t, c) = p in
-                                           LOk (((Some t), c), r)))
-
-(** val tok_table : tkind list **)
-
-let tok_table =
-  (TKw KTo) :: ((TKw KNull) :: ((TKw KTrue) :: ((TKw KFalse) :: ((TKw
-    KIs) :: ((TKw KUnknown) :: ((TKw
-    KExists) :: (TIdent :: (TString :: (TNumeric :: (TInt :: (TVariable :: (TOr :: (TAnd :: (TNot :: (TLess :: (TLessEq :: (TEqual :: (TNotEqual :: (TGreaterEq :: (TGreater :: (TAny :: ((TKw
-    KStrict) :: ((TKw KLax) :: ((TKw KLast) :: ((TKw KStarts) :: ((TKw
-    KWith) :: ((TKw KLikeRegex) :: ((TKw KFlag) :: ((TKw KAbs) :: ((TKw
-    KSize) :: ((TKw KType) :: ((TKw KFloor) :: ((TKw KDouble) :: ((TKw
-    KCeiling) :: ((TKw KKeyvalue) :: ((TKw KDatetime) :: ((TKw
-    KBigint) :: ((TKw KBoolean) :: ((TKw KDate) :: ((TKw KDecimal) :: ((TKw
-    KInteger) :: ((TKw KNumber) :: ((TKw KStringfunc) :: ((TKw
-    KTime) :: ((TKw KTimeTz) :: ((TKw KTimestamp) :: ((TKw
-    KTimestampTz) :: [])))))))))))))))))))))))))))))))))))))))))))))))
-
-(** val norm_tok : token -> token **)
-
-let norm_tok t =
-  match t.tk with
-  | TChar c ->
-    if (&&)
-         (Z.leb (Zpos (XO (XI (XO (XO (XO (XO (XO (XO (XO (XO (XO (XO (XO (XI
-           (XI XH)))))))))))))))) c)
-         (Z.leb c (Zpos (XI (XO (XO (XO (XI (XI (XO (XO (XO (XO (XO (XO (XO
-           (XI (XI XH)))))))))))))))))
-    then { tk =
-           (nth
-             (Z.to_nat
-               (Z.sub c (Zpos (XO (XI (XO (XO (XO (XO (XO (XO (XO (XO (XO (XO
-                 (XO (XI (XI XH)))))))))))))))))) tok_table (TChar c));
-           ttext = t.ttext }
-    else t
-  | _ -> t
+                                    else if Z.leb (Zpos (XO (XO (XO (XO (XO
+                                              (XO (XO (XO (XO (XO (XO (XO (XO
+                                              (XI (XI XH)))))))))))))))) ch0
+                                         then LErr EInvalidChar
+                                         else lbind (scan_operator ch0 rest0)
+                                                (fun pat0 ->
+                                                let (p, r) = pat0 in
+                                                let (t, c) = p in
+                                                LOk (((Some t), c), r)))
 
 (** val err_tok : lex_err -> token **)
 
@@ -11583,7 +11666,7 @@ let rec lex_all l fuel ch rest =
        let (p, rest') = a in
        let (o, ch') = p in
        (match o with
-        | Some t -> (norm_tok t) :: (lex_all l f ch' rest')
+        | Some t -> t :: (lex_all l f ch' rest')
         | None -> [])
      | LErr e -> (err_tok e) :: [])
 
@@ -11841,7 +11924,10 @@ let p_any_level l ts = match ts with
 | t :: r ->
   let { tk = tk0; ttext = txt } = t in
   (match tk0 with
-   | TInt -> ROk ((l.atoi_clamp txt), r)
+   | TInt ->
+     ROk ((match l.parse_int0 txt with
+           | Some z0 -> z0
+           | None -> Zneg XH), r)
    | TKw k -> (match k with
                | KLast -> ROk ((Zneg XH), r)
                | _ -> syn ts)
@@ -14081,6 +14167,220 @@ let parse_tokens l ts = match ts with
 let parse l s =
   parse_tokens l (lex l s)
 
+(** val is_accessor_step : step -> bool **)
+
+let is_accessor_step = function
+| SConst k -> (match k with
+               | CAnyArray -> true
+               | CAnyKey -> true
+               | _ -> false)
+| SStr _ -> false
+| SInteger _ -> false
+| SNumeric _ -> false
+| SVar _ -> false
+| SBin (_, _, _) -> false
+| SUn (op, _) -> (match op with
+                  | UFilter -> true
+                  | _ -> false)
+| SRegex (_, _, _) -> false
+| _ -> true
+
+(** val is_pred_step : step -> bool **)
+
+let is_pred_step = function
+| SBin (op, _, _) ->
+  (match op with
+   | BAdd -> false
+   | BSub -> false
+   | BMul -> false
+   | BDiv -> false
+   | BMod -> false
+   | _ -> true)
+| SUn (op, _) ->
+  (match op with
+   | UExists -> true
+   | UNot -> true
+   | UIsUnknown -> true
+   | _ -> false)
+| SRegex (_, _, _) -> true
+| _ -> false
+
+(** val is_pred_chain : chain -> bool **)
+
+let is_pred_chain = function
+| [] -> false
+| s :: l -> (match l with
+             | [] -> is_pred_step s
+             | _ :: _ -> false)
+
+(** val is_expr_chain : chain -> bool **)
+
+let is_expr_chain c =
+  negb (is_pred_chain c)
+
+(** val chain_shape : chain -> bool **)
+
+let chain_shape = function
+| [] -> false
+| h :: t -> (&&) (negb (is_accessor_step h)) (forallb is_accessor_step t)
+
+(** val wf_text : char list -> bool **)
+
+let wf_text s =
+  let rs = runes_of s in
+  (&&) (forallb (fun r -> (&&) (valid_rune r) (negb (Z.eqb r Z0))) rs)
+    (eqb0 (string_of_runes rs) s)
+
+(** val is_number_chain : chain -> bool **)
+
+let is_number_chain = function
+| [] -> false
+| s :: l ->
+  (match s with
+   | SInteger _ -> (match l with
+                    | [] -> true
+                    | _ :: _ -> false)
+   | SNumeric _ -> (match l with
+                    | [] -> true
+                    | _ :: _ -> false)
+   | _ -> false)
+
+(** val lit_int_ok : z -> bool **)
+
+let lit_int_ok z0 =
+  (&&) (Z.leb (Z.opp max_int64) z0) (Z.leb z0 max_int64)
+
+(** val step_ok : goLib -> step -> bool **)
+
+let step_ok l = function
+| SStr t -> wf_text t
+| SInteger z0 -> lit_int_ok z0
+| SNumeric f -> f64_finite f
+| SVar t -> wf_text t
+| SKey t -> wf_text t
+| SBin (op, l0, r) ->
+  (match op with
+   | BAnd -> (&&) (is_pred_chain l0) (is_pred_chain r)
+   | BOr -> (&&) (is_pred_chain l0) (is_pred_chain r)
+   | BStartsWith ->
+     (&&) (is_expr_chain l0)
+       (match r with
+        | [] -> false
+        | s0 :: l1 ->
+          (match s0 with
+           | SStr _ -> (match l1 with
+                        | [] -> true
+                        | _ :: _ -> false)
+           | SVar _ -> (match l1 with
+                        | [] -> true
+                        | _ :: _ -> false)
+           | _ -> false))
+   | _ -> (&&) (is_expr_chain l0) (is_expr_chain r))
+| SUn (op, a) ->
+  (match op with
+   | UExists -> is_expr_chain a
+   | UPlus -> (&&) (is_expr_chain a) (negb (is_number_chain a))
+   | UMinus -> (&&) (is_expr_chain a) (negb (is_number_chain a))
+   | _ -> is_pred_chain a)
+| SRegex (a, pat, fl) ->
+  (&&)
+    ((&&)
+      ((&&) ((&&) ((&&) (is_expr_chain a) (wf_text pat)) (Z.leb Z0 fl))
+        (Z.ltb fl (Zpos (XO (XO (XO (XO (XO XH))))))))
+      ((||) (Z.eqb (Z.coq_land fl reWSpace) Z0)
+        (negb (Z.eqb (Z.coq_land fl reQuote) Z0)))) (l.regex_ok pat fl)
+| SDecimal (p, sc) ->
+  (match p with
+   | Some _ ->
+     (&&) (match p with
+           | Some z0 -> lit_int_ok z0
+           | None -> true)
+       (match sc with
+        | Some z0 -> lit_int_ok z0
+        | None -> true)
+   | None ->
+     (match sc with
+      | Some _ -> false
+      | None ->
+        (&&) (match p with
+              | Some z0 -> lit_int_ok z0
+              | None -> true)
+          (match sc with
+           | Some z0 -> lit_int_ok z0
+           | None -> true)))
+| SDt (op, tmpl, prec) ->
+  (match op with
+   | DDateTime ->
+     (match prec with
+      | Some _ -> false
+      | None -> (match tmpl with
+                 | Some t -> wf_text t
+                 | None -> true))
+   | DDate ->
+     (match tmpl with
+      | Some _ -> false
+      | None -> (match prec with
+                 | Some _ -> false
+                 | None -> true))
+   | _ ->
+     (match tmpl with
+      | Some _ -> false
+      | None ->
+        (match prec with
+         | Some z0 -> (&&) (Z.leb Z0 z0) (Z.leb z0 max_int64)
+         | None -> true)))
+| SAny (a, b) ->
+  (&&) ((&&) ((&&) (Z.leb Z0 a) (Z.leb a max_uint32)) (Z.leb Z0 b))
+    (Z.leb b max_uint32)
+| SIndex subs ->
+  (&&) (negb (match subs with
+              | [] -> true
+              | _ :: _ -> false))
+    (forallb (fun ab ->
+      (&&) (is_expr_chain (fst ab))
+        (match snd ab with
+         | Some c -> is_expr_chain c
+         | None -> true)) subs)
+| _ -> true
+
+(** val st_all : (step -> bool) -> (step list -> bool) -> step -> bool **)
+
+let rec st_all p q s =
+  let ca =
+    let rec ca = function
+    | [] -> true
+    | x :: r -> (&&) (st_all p q x) (ca r)
+    in ca
+  in
+  (&&) (p s)
+    (match s with
+     | SBin (_, l, r) -> (&&) ((&&) (q l) (ca l)) ((&&) (q r) (ca r))
+     | SUn (_, a) -> (&&) (q a) (ca a)
+     | SRegex (a, _, _) -> (&&) (q a) (ca a)
+     | SIndex subs ->
+       let rec ss = function
+       | [] -> true
+       | p0 :: r ->
+         let (a, b) = p0 in
+         (&&)
+           ((&&) ((&&) (q a) (ca a))
+             (match b with
+              | Some c -> (&&) (q c) (ca c)
+              | None -> true)) (ss r)
+       in ss subs
+     | _ -> true)
+
+(** val ch_all : (step -> bool) -> (step list -> bool) -> chain -> bool **)
+
+let rec ch_all p q = function
+| [] -> true
+| x :: r -> (&&) (st_all p q x) (ch_all p q r)
+
+(** val wf_chain : goLib -> chain -> bool **)
+
+let wf_chain l c =
+  (&&) (chain_shape c) (ch_all (step_ok l) chain_shape c)
+
 (** val binop_name : binop -> char list **)
 
 let binop_name = function
@@ -14562,183 +14862,42 @@ let unmarshal_binary l data =
 let unmarshal_text =
   unmarshal_binary
 
-(** val atoi_impl : char list -> z **)
+(** val is_operator_step : step -> bool **)
 
-let atoi_impl s =
-  let bs = bytes_of s in
-  (match bs with
-   | [] ->
-     let neg = false in
-     (match bs with
-      | [] -> Z0
-      | _ :: _ ->
-        if forallb is_digit bs
-        then let v = dec_value bs in
-             if neg then Z.max (Z.opp v) min_int64 else Z.min v max_int64
-        else Z0)
-   | z0 :: r ->
-     (match z0 with
-      | Zpos p ->
-        (match p with
-         | XI p0 ->
-           (match p0 with
-            | XI p1 ->
-              (match p1 with
-               | XO p2 ->
-                 (match p2 with
-                  | XI p3 ->
-                    (match p3 with
-                     | XO p4 ->
-                       (match p4 with
-                        | XH ->
-                          let neg = false in
-                          (match r with
-                           | [] -> Z0
-                           | _ :: _ ->
-                             if forallb is_digit r
-                             then let v = dec_value r in
-                                  if neg
-                                  then Z.max (Z.opp v) min_int64
-                                  else Z.min v max_int64
-                             else Z0)
-                        | _ ->
-                          let neg = false in
-                          (match bs with
-                           | [] -> Z0
-                           | _ :: _ ->
-                             if forallb is_digit bs
-                             then let v = dec_value bs in
-                                  if neg
-                                  then Z.max (Z.opp v) min_int64
-                                  else Z.min v max_int64
-                             else Z0))
-                     | _ ->
-                       let neg = false in
-                       (match bs with
-                        | [] -> Z0
-                        | _ :: _ ->
-                          if forallb is_digit bs
-                          then let v = dec_value bs in
-                               if neg
-                               then Z.max (Z.opp v) min_int64
-                               else Z.min v max_int64
-                          else Z0))
-                  | _ ->
-                    let neg = false in
-                    (match bs with
-                     | [] -> Z0
-                     | _ :: _ ->
-                       if forallb is_digit bs
-                       then let v = dec_value bs in
-                            if neg
-                            then Z.max (Z.opp v) min_int64
-                            else Z.min v max_int64
-                       else Z0))
-               | _ ->
-                 let neg = false in
-                 (match bs with
-                  | [] -> Z0
-                  | _ :: _ ->
-                    if forallb is_digit bs
-                    then let v = dec_value bs in
-                         if neg
-                         then Z.max (Z.opp v) min_int64
-                         else Z.min v max_int64
-                    else Z0))
-            | XO p1 ->
-              (match p1 with
-               | XI p2 ->
-                 (match p2 with
-                  | XI p3 ->
-                    (match p3 with
-                     | XO p4 ->
-                       (match p4 with
-                        | XH ->
-                          let neg = true in
-                          (match r with
-                           | [] -> Z0
-                           | _ :: _ ->
-                             if forallb is_digit r
-                             then let v = dec_value r in
-                                  if neg
-                                  then Z.max (Z.opp v) min_int64
-                                  else Z.min v max_int64
-                             else Z0)
-                        | _ ->
-                          let neg = false in
-                          (match bs with
-                           | [] -> Z0
-                           | _ :: _ ->
-                             if forallb is_digit bs
-                             then let v = dec_value bs in
-                                  if neg
-                                  then Z.max (Z.opp v) min_int64
-                                  else Z.min v max_int64
-                             else Z0))
-                     | _ ->
-                       let neg = false in
-                       (match bs with
-                        | [] -> Z0
-                        | _ :: _ ->
-                          if forallb is_digit bs
-                          then let v = dec_value bs in
-                               if neg
-                               then Z.max (Z.opp v) min_int64
-                               else Z.min v max_int64
-                          else Z0))
-                  | _ ->
-                    let neg = false in
-                    (match bs with
-                     | [] -> Z0
-                     | _ :: _ ->
-                       if forallb is_digit bs
-                       then let v = dec_value bs in
-                            if neg
-                            then Z.max (Z.opp v) min_int64
-                            else Z.min v max_int64
-                       else Z0))
-               | _ ->
-                 let neg = false in
-                 (match bs with
-                  | [] -> Z0
-                  | _ :: _ ->
-                    if forallb is_digit bs
-                    then let v = dec_value bs in
-                         if neg
-                         then Z.max (Z.opp v) min_int64
-                         else Z.min v max_int64
-                    else Z0))
-            | XH ->
-              let neg = false in
-              (match bs with
-               | [] -> Z0
-               | _ :: _ ->
-                 if forallb is_digit bs
-                 then let v = dec_value bs in
-                      if neg
-                      then Z.max (Z.opp v) min_int64
-                      else Z.min v max_int64
-                 else Z0))
-         | _ ->
-           let neg = false in
-           (match bs with
-            | [] -> Z0
-            | _ :: _ ->
-              if forallb is_digit bs
-              then let v = dec_value bs in
-                   if neg
-                   then Z.max (Z.opp v) min_int64
-                   else Z.min v max_int64
-              else Z0))
-      | _ ->
-        let neg = false in
-        (match bs with
-         | [] -> Z0
-         | _ :: _ ->
-           if forallb is_digit bs
-           then let v = dec_value bs in
-                if neg then Z.max (Z.opp v) min_int64 else Z.min v max_int64
-           else Z0)))
+let is_operator_step = function
+| SBin (_, _, _) -> true
+| SUn (op, _) -> (match op with
+                  | UFilter -> false
+                  | _ -> true)
+| SRegex (_, _, _) -> true
+| _ -> false
+
+(** val op_with_tail : chain -> bool **)
+
+let op_with_tail = function
+| [] -> false
+| h :: l -> (match l with
+             | [] -> false
+             | _ :: _ -> is_operator_step h)
+
+(** val integral_numeric : step -> bool **)
+
+let integral_numeric = function
+| SNumeric f -> f64_integral f
+| _ -> false
+
+(** val excl_chain : chain -> bool **)
+
+let excl_chain c =
+  (||)
+    (negb
+      (ch_all (fun s -> negb (integral_numeric s)) (fun c0 ->
+        negb (op_with_tail c0)) c)) (op_with_tail c)
+
+(** val excl_C02 : path -> bool **)
+
+let excl_C02 p =
+  excl_chain p.p_root
 
 (** val mk_lib : (char list -> z -> bool) -> goLib **)
 
@@ -14747,8 +14906,7 @@ let mk_lib rx =
     is_print0; to_lower = to_lower0; parse_int0 =
     (parse_int Z0 (Zpos (XO (XO (XO (XO (XO (XO XH)))))))); parse_float =
     parse_float0; format_int = format_int0; format_float_json =
-    format_float_json0; f64_neg = f64_neg0; regex_ok = rx; atoi_clamp =
-    atoi_impl }
+    format_float_json0; f64_neg = f64_neg0; regex_ok = rx }
 
 (** val hexd : z -> char **)
 
@@ -14992,6 +15150,8 @@ let lex_err_name = function
 | EHex -> 'h'::('e'::('x'::[]))
 | EUnicode -> 'u'::('n'::('i'::('c'::('o'::('d'::('e'::[]))))))
 | EU0000 -> 'u'::('0'::('0'::('0'::('0'::[]))))
+| EInvalidChar ->
+  'i'::('n'::('v'::('a'::('l'::('i'::('d'::('_'::('c'::('h'::('a'::('r'::[])))))))))))
 | EOutOfFuel ->
   'L'::('E'::('X'::('_'::('O'::('U'::('T'::('_'::('O'::('F'::('_'::('F'::('U'::('E'::('L'::[]))))))))))))))
 
@@ -15023,7 +15183,20 @@ let run_line rx src =
   let l = mk_lib rx in
   (match parse l src with
    | POk p ->
-     append ('O'::('K'::(' '::[])))
+     let wf =
+       (&&) (wf_chain l p.p_root) (eqb p.p_pred (is_pred_chain p.p_root))
+     in
+     let rtok =
+       match parse l (print_path l p) with
+       | POk p' -> eqb0 (dump_path p') (dump_path p)
+       | PErr _ -> false
+     in
+     append
+       (if negb wf
+        then 'O'::('K'::(' '::('N'::('O'::('T'::('W'::('F'::(' '::[]))))))))
+        else if (&&) (negb (excl_C02 p)) (negb rtok)
+             then 'O'::('K'::(' '::('C'::('0'::('2'::('F'::('A'::('I'::('L'::(' '::[]))))))))))
+             else 'O'::('K'::(' '::[])))
        (append (dump_path p) (append (' '::[]) (hx (print_path l p))))
    | PErr e -> append ('E'::('R'::('R'::(' '::[])))) (err_name e))
 
